@@ -13,6 +13,11 @@ CLAIMS = {
   technique=TECH + "function contracts + loop invariants (DFCC) on bitmap.c, ghost-index set semantics, SAT; quantified clauses on z3",
   text="Every hwloc_bitmap_* constructor, modifier, combinator and query of hwloc/bitmap.c is enforced against a contract over the abstract value of a bitmap (word function W, tail flag T) for a universally quantified ghost word/bit: all representations satisfying the representation invariant (which every function is proved to preserve, so it holds on every API history), all alias configurations, all loop iteration counts (loop invariants, no unwinding), bit indexes < 2^30. Clauses that need a quantified hypothesis (witness directions of the boolean queries, compare, compare_first, compare_inclusion classes, singlify non-emptiness) are proved without bound on z3 where it finishes and otherwise stand as bounded (<= 16/32 words) SAT runs, labelled so in the evidence; exact weight is bounded (<= 4 words).",
   note="Trusted: cbmc/DFCC/minisat/z3; abstract realloc and memcpy stubs; cbmc's __builtin_ffsl/popcountl; domain bound MAXW=2^24 words as preconditions; unsigned arithmetic is machine arithmetic; compare_first is specified by sign (the code returns differences, the documentation says -1/0/1)."),
+ "C04": dict(
+  category="proof", design_ref="DESIGN.md section 3 (C04)",
+  technique=TECH + "loop invariants (cursor triple) on the three printers under goto-instrument --apply-loop-contracts with an snprintf contract stub; bounded unwinding for the parsers",
+  text="hwloc_bitmap_snprintf, _list_snprintf and _taskset_snprintf satisfy the snprintf contract for every bitmap (any content, <= 64 stored words, both tails) and every buffer 0..64 bytes or NULL/0: nothing written outside [buf,buf+buflen) (guarded arena + bounds checks), NUL-terminated when buflen>0, return value = sum of the untruncated piece lengths, loops terminate (decreases) -- loops closed by invariants, not unwound. The three asprintf variants are memory safe over both passes and return a length with a string or -1 (<= 8 words). hwloc_bitmap_sscanf and _taskset_sscanf on an arbitrary NUL-terminated string of <= 6 bytes return 0/-1 without out-of-bounds access or failed assertion and keep the representation invariant (bounded stand-in, labelled so). Not decided: the print/parse round trip and that asprintf and snprintf produce the same text (both need the text content, which the snprintf contract abstracts), hwloc_bitmap_list_sscanf (the runs did not fit in memory).",
+  note="Trusted: snprintf (C99 contract stub, pieces <= 24 chars), strtoul (end pointer inside the string, value arbitrary), abstract realloc; parsers are bounded (strings <= 6 bytes, unwind 9)."),
  "C11": dict(
   category="proof", design_ref="DESIGN.md section 3 (C11)",
   technique=TECH + "loop invariants (cursor triple) under goto-instrument --apply-loop-contracts with an snprintf contract stub; loop-free full-domain harness for hwloc_compare_types",
@@ -42,7 +47,6 @@ CLAIMS = {
 
 NOT_APPLICABLE = {
  "C01": "global well-formedness of an unbounded, cyclically linked object tree produced by hwloc_topology_load through backends, files and ~3000 lines of insertion code: neither the state predicate (no inductive heap predicates in CBMC contracts) nor load as a contract subject is expressible (DESIGN.md section 6)",
- "C04": "not built yet: snprintf contract of the three bitmap printers and safety of the parsers are planned (DESIGN.md section 3); the general round trip needs text content and is not decidable by contracts over an abstract snprintf",
  "C05": "XML export/import round trip: whole-topology relation through two parsers and string formatting; only base64/escape leaf functions would be in reach (not built)",
  "C06": "arbitrary XML never corrupts memory: the import walks unbounded buffers and builds an unbounded tree; only bounded checks of the nolibxml scanners would be in reach (not built)",
  "C07": "synthetic parser/builder over strings up to 128 levels with strtoul/strchr cursors: invariants for the 390-line parser loop are out of budget (DESIGN.md section 6)",
